@@ -185,4 +185,14 @@ PROPS = {
             "the protocol model is NOT replayed against probes inside src/tracing.rs; the tie is end-to-end (monitor on the event stream of real runs)",
         ],
     },
+    "C14": {
+        "module": "Cuke.Props.C14",
+        "namespace": "Cuke.C14",
+        "families": [("report.run", 1500, 80000)],
+        "modelled_not_verified": [
+            "serde_json / junit-report / console: byte-level serialisation; well-formedness and escaping are tested by parsing the real output back (names with quotes, <&>, ]]>, backslashes, non-ASCII), not proved",
+            "the plain terminal writer (writer::Basic) has no model of its own yet: it is exercised through JUnit's system-out rendering only",
+            "durations / timestamps are ignored; reporter CLI options other than the defaults are not varied yet",
+        ],
+    },
 }
